@@ -125,6 +125,9 @@ func vrSetup() *vRouter {
 	d.neighborIAs[vrIfSA2] = addr.IA(verif.NondetU64("nb.258"))
 	d.neighborIAs[vrIfSB] = addr.IA(verif.NondetU64("nb.65535"))
 	d.localHost = addr.HostIP(netip.AddrFrom4([4]byte{10, 1, 2, 3}))
+	if vrParamOr("lh6", 0) == 1 {
+		d.localHost = addr.HostIP(netip.AddrFrom16([16]byte{0xfd, 0, 0, 0, 0, 0, 0, 0, 0, 0, 0, 0, 10, 1, 2, 3}))
+	}
 	d.numInterfaces = 6
 	d.ExperimentalSCMPAuthentication = false
 	r.d = d
@@ -183,9 +186,22 @@ func vrClassFromParams() vrClass {
 	return c
 }
 
-// vrPacket creates the symbolic packet of class c and states the class assumptions.
+// vrParamOr: optional instance parameter (absent = def). Parameters are concrete bounds.
+func vrParamOr(name string, def int) int {
+	if !verif.HasParam(name) {
+		return def
+	}
+	return verif.Param(name)
+}
+
+// vrPacket creates the symbolic packet of class c and states the class assumptions. With the
+// parameter "big" = n the packet carries n further payload bytes that are concrete zeros (the
+// checked decisions do not depend on payload content; only lengths matter).
 func vrPacket(r *vRouter, c vrClass) (*Packet, []byte) {
 	raw := verif.NondetBytes("pkt", c.total)
+	if big := vrParamOr("big", 0); big > 0 {
+		raw = append(raw, make([]byte, big)...)
+	}
 	// the steering fields of the class are constants (the corresponding nondet bits are unused)
 	raw[5] = byte(c.hdrLen / 4)
 	raw[8] = byte(c.pathType)
@@ -217,8 +233,8 @@ func vrPacket(r *vRouter, c vrClass) (*Packet, []byte) {
 	headroom := verif.Param("headroom")
 	copy(buf[headroom:], raw)
 	pkt := &Packet{buffer: buf}
-	pkt.RawPacket = buf[headroom : headroom+c.total]
-	orig := make([]byte, c.total)
+	pkt.RawPacket = buf[headroom : headroom+len(raw)]
+	orig := make([]byte, len(raw))
 	copy(orig, raw)
 	return pkt, orig
 }
